@@ -29,12 +29,13 @@ Definition w_f23 : list (list tx) :=
   w_prefix ++ [ [ w_tx 1 (OVote 1 None); w_tx 4 (OUnreg 3) ]; [ w_reg 4 3 ] ].
 Definition w_f23_next : list tx := [ w_tx 1 (OVote 1 (Some 3%N)) ].
 
-(* F47: the committee sets the whitelisted fee of the contract of account 2 to 7, later to 900000 *)
+(* F47: account 2 deploys its contract; the committee sets the whitelisted fee of its method to 7, later to 900000 *)
 Definition w_cfg47 (fix47 : bool) : config :=
   mkCfg [1;2;3;4]%N [0;1;2]%N 2 [KPlain;KPlain;KPlain;KPlain;KPlain;KNotary;KNeo;KGas] 5 6 7 5200000000000000
         true true true true fix47.
 Definition w_f47 : list (list tx) :=
-  [ [ mkTx 0 100000000 1000000 [0;1;2]%N (OWhitelist 2 (Some 7)) true None ];
+  [ [ mkTx 0 100000000 1000000 [] (ODeploy 2) true None;
+      mkTx 0 100000000 1000000 [0;1;2]%N (OWhitelist 2 (Some 7)) true None ];
     [ mkTx 0 100000000 1000000 [0;1;2]%N (OWhitelist 2 (Some 900000)) true None ] ].
 
 Lemma w_cfg47_wf f : cfg_wf (w_cfg47 f).
